@@ -11,6 +11,7 @@ import (
 	"bytes"
 	"encoding/json"
 	"fmt"
+	"io"
 	"math/rand"
 	"os"
 	"os/exec"
@@ -18,6 +19,8 @@ import (
 	"strings"
 	"sync"
 	"time"
+
+	"github.com/sirupsen/logrus"
 
 	"verifh/internal/hx"
 	"verifh/internal/lineio"
@@ -48,6 +51,8 @@ type totals struct {
 }
 
 func Run(o *hx.Opts, w *lineio.Writer) error {
+	// the stub and ttrpc log every (expected) connection failure through logrus
+	logrus.SetOutput(io.Discard)
 	if bf := os.Getenv(workerEnv); bf != "" {
 		return worker(bf, o)
 	}
@@ -123,7 +128,7 @@ func worker(batch string, o *hx.Opts) error {
 // ---------------------------------------------------------------- parent side
 
 func runParallel(o *hx.Opts, cases []caseIn) []histObs {
-	nw := 4
+	nw := 6 // workers mostly sleep on deadlines
 	if len(cases) < nw {
 		nw = 1
 	}
